@@ -185,6 +185,9 @@ class HyperbandRemoveCheckpointsCommon(TunerCallback):
                 self._scheduler.terminator.paused_trials()
             )
             num_to_remove = min(num_to_remove, len(paused_trials_with_checkpoints))
+            if num_to_remove == 0:
+                # No paused trial has a checkpoint which could be removed
+                return
             trials_to_remove = self._trials_to_be_removed(
                 paused_trials_with_checkpoints, num_to_remove
             )
